@@ -188,7 +188,7 @@ func restoreNodeOpts(p *Program, nt nodeType) *UnitOpts {
 				ex.obligeSpec(env, fmt.Sprintf("%s#maps:registered_before_recursion@%d", name, nRec), "schema", ev.Guard, "has(r.Ast.Nodes, n)", nil)
 			}
 		}
-		restoreTape(ex, frm, p, nt, name, g, st, envAt)
+		restoreTape(ex, frm, p, nt, name, g, st, envAt, res[0].T)
 	}
 	return opts
 }
@@ -347,7 +347,7 @@ func decorationFields(t types.Type) []string {
 	return out
 }
 
-func restoreTape(ex *Exec, frm *frame, p *Program, nt nodeType, name, g string, st *State, envAt func(*State) *SpecEnv) {
+func restoreTape(ex *Exec, frm *frame, p *Program, nt nodeType, name, g string, st *State, envAt func(*State) *SpecEnv, resT string) {
 	check := func(label string, ok bool, what string) {
 		goal := "true"
 		if !ok {
@@ -357,6 +357,29 @@ func restoreTape(ex *Exec, frm *frame, p *Program, nt nodeType, name, g string, 
 		o.Guard = "true"
 	}
 	tape := buildTape(ex, frm.fn, 0)
+	// every space and every decoration point is rendered on every normally terminating path through
+	// the case: "emits each comment exactly once" whatever optional children are present
+	dup := envAt(frm.entry).eval(mustParse("has(r.Ast.Nodes, n)"))
+	always := func(pfx string, tp []tapeEv, extra string) {
+		cnt := map[string]int{}
+		for _, t := range tp {
+			if t.K != "Dec" && t.K != "Sp" {
+				continue
+			}
+			key := t.K + ":" + t.Name
+			cnt[key]++
+			ex.oblige(fmt.Sprintf("%s#tape:%salways_rendered:%s@%d", name, pfx, key, cnt[key]), "schema", and(g, not(dup.T), extra), t.Guard, "reached on every normally terminating path that restores the node (it was not in the map)", "")
+		}
+	}
+	if nt.Name == "Ident" {
+		// an identifier is rendered either plainly (result *ast.Ident) or as a qualified identifier (result *ast.SelectorExpr)
+		always("", tape, eq(iTyp(resT), intLit(int64(ex.u.typeID(types.NewPointer(p.astNamed("Ident")))))))
+		if fn := p.fns[fr("restoreIdent")]; fn != nil {
+			always("qualified.", buildTape(ex, fn, 1), eq(iTyp(resT), intLit(int64(ex.u.typeID(types.NewPointer(p.astNamed("SelectorExpr")))))))
+		}
+	} else {
+		always("", tape, "")
+	}
 	var seq []string
 	for _, t := range tape {
 		seq = append(seq, t.String())
